@@ -5,6 +5,8 @@ import (
 	"fmt"
 	"os"
 	"runtime"
+	"strconv"
+	"strings"
 	"testing"
 	"time"
 
@@ -61,7 +63,7 @@ func TestPlan(t *testing.T) {
 	for i := range enum {
 		enum[i].TimeoutS = 600
 	}
-	nr, checks := 4, 5000
+	nr, checks := 8, 10000
 	if thorough {
 		nr, checks = 16, 60000
 	}
@@ -99,6 +101,10 @@ func TestPlan(t *testing.T) {
 		p.Shards = append(p.Shards, ev.RapidShards("prog", "^TestProg$", nr, checks, nil)...)
 		p.Shards = append(p.Shards, ev.RapidShards("soup", "^TestSoup$", nr, checks*2, nil)...)
 		p.Shards = append(p.Shards, ev.RapidShards("bytes", "^TestBytes$", nr, checks, nil)...)
+	}
+	if id() != "C06" {
+		tot := identScriptsTotal()
+		p.Shards = append(p.Shards, ev.RangeShards("scripts", "^TestIdentScripts$", tot, tot/4+1, nil)...)
 	}
 	if thorough && id() != "C06" {
 		// native coverage-guided fuzzing: seeded from the repository's inputs, and once from an empty corpus
@@ -265,7 +271,12 @@ func TestProg(t *testing.T) {
 	s := ev.Open(t, id())
 	s.Watchdog(10*time.Second, 6<<30)
 	defer s.Done()
-	rp.Check(t, s, "input", func(rt *rapid.T) InputCase { return genProg(rt).Src }, func(c InputCase) *rp.Fail {
+	rp.Check(t, s, "input", func(rt *rapid.T) InputCase {
+		if rapid.IntRange(0, 2).Draw(rt, "joined") == 0 {
+			return mkInput(gen.RenderJoined(gen.RapidChooser{T: rt}, gen.Program(rt)))
+		}
+		return genProg(rt).Src
+	}, func(c InputCase) *rp.Fail {
 		x := c.input()
 		s.Progress(0, []byte(x))
 		s.Tick()
@@ -382,6 +393,61 @@ func TestPrefix(t *testing.T) {
 }
 
 var byteAlphabet = append([]string{"\xa0", "\x85", "\u00a0", "\u2028", "\ufeff", "\x00", "\xff", "\xc3", "\xe4\xb8", "\xf0\x9f\x98\x80", " ", " ", "\v", "\f", "0", "-", "=", ">", "<", "|", "'", "\\", "{{.X}}", "task ", "task", " := ", "()", "{}", "{\n", "\n}", "aaaaaaaaaaaaaaaaaaaaaaaaaaaaaaaaaaaaaaaa"}, gen.Alphabet...)
+
+// identTemplates: a small program per identifier position; %s is the identifier.
+var identTemplates = []string{
+	"%s := \"v\"\n",
+	"X := \"a\" %s := \"v\"\n",
+	"# c\n%s := join(\"a\", X)\n",
+	"X := %s\n",
+	"X := join(%s, \"b\")\n",
+	"task %s() {\n    echo hi\n}\n",
+	"# doc\ntask t(%s, \"f.go\") -> %s {\n    go build\n}\n",
+	"task t() -> (\"a\", %s) { echo {{.X}} }  %s := \"v\"",
+	"task t() {}\r\n%s := \"v\"\r\n",
+}
+
+// TestIdentScripts: identifiers in every identifier position x identifier shapes (bare, behind and
+// in front of the keyword-like text "task", with '_') x one letter for every UTF-8 lead byte and
+// every 64-code-point block of the Basic Multilingual Plane that has letters.
+func TestIdentScripts(t *testing.T) {
+	s := ev.Open(t, id())
+	s.Watchdog(10*time.Second, 6<<30)
+	defer s.Done()
+	letters := append(append([]rune(nil), gen.LeadLetters...), gen.WideLetters...)
+	lo, hi := ev.RangeFromEnv()
+	shapes := []string{"%c", "task%c", "%ctask", "task_%c", "a%cb", "task%ctask"}
+	var idx uint64
+	seen := map[string]bool{}
+	for _, l := range letters {
+		for _, shape := range shapes {
+			for _, tpl := range identTemplates {
+				idx++
+				if idx-1 < lo || idx-1 >= hi {
+					continue
+				}
+				x := strings.ReplaceAll(tpl, "%s", fmt.Sprintf(shape, l))
+				s.Progress(idx-1, []byte(x))
+				s.Tick()
+				s.Class("space_ident_scripts")
+				if idx%997 == 0 {
+					s.Sample(strconv.QuoteToASCII(x))
+				}
+				if f := checkInput(id(), s, x); f != nil && !seen[f.Sig] {
+					seen[f.Sig] = true
+					s.Violation("input", f.Sig, f.Msg, f.Size, mkInput(x))
+				}
+			}
+		}
+	}
+	if s.Failed() {
+		t.Fatal("violations recorded")
+	}
+}
+
+func identScriptsTotal() uint64 {
+	return uint64((len(gen.LeadLetters) + len(gen.WideLetters)) * 6 * len(identTemplates))
+}
 
 // TestBytes: byte strings biased to the token alphabet, NUL, invalid UTF-8, long lines,
 // deep brace runs (C08 and, as an extra space, the other input-level properties).
